@@ -428,6 +428,27 @@ impl std::io::Write for ChunkSink {
         Ok(())
     }
 }
+/// A byte sink whose k-th write call (0-based) fails with a hard error; every other call accepts
+/// the whole buffer.  What it accepted is observable from outside.
+pub struct FailSink {
+    pub data: Rc<RefCell<Vec<u8>>>,
+    pub calls: usize,
+    pub fail_at: usize,
+}
+impl std::io::Write for FailSink {
+    fn write(&mut self, buf: &[u8]) -> std::io::Result<usize> {
+        let k = self.calls;
+        self.calls += 1;
+        if k == self.fail_at {
+            return Err(std::io::Error::new(std::io::ErrorKind::Other, "injected sink failure"));
+        }
+        self.data.borrow_mut().extend_from_slice(buf);
+        Ok(buf.len())
+    }
+    fn flush(&mut self) -> std::io::Result<()> {
+        Ok(())
+    }
+}
 pub const FINISHERS: [&str; 4] = ["flush", "flush2", "into_inner", "drop"];
 
 #[derive(Debug, Clone, PartialEq, Eq)]
@@ -523,6 +544,19 @@ pub fn run_on_backend(e: End, wbits: usize, backend: &str, finisher: &str, ops: 
                         BufBitWriter::<$E, _>::new(WordAdapter::<$W, LazySink>::new(LazySink { pending: Vec::new(), committed })),
                         move |_b: WordAdapter<$W, LazySink>| c2.borrow().clone(),
                         Some(Box::new(move || c3.borrow().clone()))
+                    )
+                }
+                b if b.starts_with("adapterfail:") => {
+                    let fail_at: usize = b["adapterfail:".len()..].parse().unwrap();
+                    let data: Rc<RefCell<Vec<u8>>> = Rc::new(RefCell::new(Vec::new()));
+                    let d2 = data.clone();
+                    let d3 = data.clone();
+                    drive!(
+                        $E,
+                        $W,
+                        BufBitWriter::<$E, _>::new(WordAdapter::<$W, FailSink>::new(FailSink { data, calls: 0, fail_at })),
+                        move |_b: WordAdapter<$W, FailSink>| d2.borrow().clone(),
+                        Some(Box::new(move || d3.borrow().clone()))
                     )
                 }
                 "adapter3" => drive!($E, $W, BufBitWriter::<$E, _>::new(WordAdapter::<$W, ChunkSink>::new(ChunkSink(Vec::new()))), |b: WordAdapter<$W, ChunkSink>| b.into_inner().0, None),
